@@ -295,12 +295,27 @@ fn are_more_expressions(args: &[&str], index: usize) -> bool {
     (index < args.len() - 1) && args[index + 1] != ")"
 }
 
+/// Parse a number the way find writes them: decimal digits only.  (Rust's
+/// integer parsers would also accept a leading `+`.)
+fn parse_decimal<T: std::str::FromStr>(value_as_string: &str) -> Option<T> {
+    if value_as_string.is_empty() || !value_as_string.bytes().all(|b| b.is_ascii_digit()) {
+        return None;
+    }
+    value_as_string.parse().ok()
+}
+
+/// A numeric user or group id given to -user/-group; the all-ones value is
+/// what chown(2) uses for "unchanged" and never names an owner.
+fn parse_owner_id(value_as_string: &str) -> Option<u32> {
+    parse_decimal::<u32>(value_as_string).filter(|id| *id != u32::MAX)
+}
+
 fn convert_arg_to_number(
     option_name: &str,
     value_as_string: &str,
 ) -> Result<usize, Box<dyn Error>> {
-    match value_as_string.parse::<usize>() {
-        Ok(val) => Ok(val),
+    match parse_decimal::<usize>(value_as_string) {
+        Some(val) => Ok(val),
         _ => Err(From::from(format!(
             "Expected a positive decimal integer argument to {option_name}, but got \
              `{value_as_string}'"
@@ -736,7 +751,7 @@ fn build_matcher_tree(
 
                 i += 1;
                 let matcher = UserMatcher::from_user_name(user)
-                    .or_else(|| Some(UserMatcher::from_uid(user.parse::<u32>().ok()?)))
+                    .or_else(|| Some(UserMatcher::from_uid(parse_owner_id(user)?)))
                     .ok_or_else(|| format!("{user} is not the name of a known user"))?;
                 Some(matcher.into_box())
             }
@@ -765,7 +780,7 @@ fn build_matcher_tree(
 
                 i += 1;
                 let matcher = GroupMatcher::from_group_name(group)
-                    .or_else(|| Some(GroupMatcher::from_gid(group.parse::<u32>().ok()?)))
+                    .or_else(|| Some(GroupMatcher::from_gid(parse_owner_id(group)?)))
                     .ok_or_else(|| format!("{group} is not the name of an existing group"))?;
                 Some(matcher.into_box())
             }
